@@ -49,6 +49,10 @@ def plan(ctx):
     # (i) writer: encode / reconstruct store the CRC-32 of the payload; legacy switch (shared harness with C07/C03)
     from props.c07 import writer_obs
     obs += writer_obs(ctx, for_c10=True)
+    # ... and reconstruct: the rebuilt fragment (header incl. checksum type, payload CRC, metadata CRC) equals the reference serializer's
+    from props.shapes import l2_ob, RS, XOR, ISAV
+    for be, k, m, hd, surv, dest in ((RS, 2, 1, 1, [2, 1], 0), (RS, 2, 1, 1, [0, 1], 2), (RS, 2, 2, 2, [3, 0], 1), (ISAV, 2, 1, 1, [0, 2], 1)):
+        obs.append(l2_ob(be, k, m, hd, surv, mode=2, dest=dest, ct=2, tag="writer-reconstruct"))
     return {"obs": obs, "native": [native_zcrc],
             "assumptions": ["verifier harness: CRCs uninterpreted, host byte order (opposite order is C11)",
                             "writer harnesses: zlib crc32 replaced by model/zcrc32.c (validated natively against libz on every run)"],
